@@ -7,10 +7,14 @@
 (***************************************************************************)
 EXTENDS LinkAddr, Json, Integers
 
-CONSTANTS IsMaster, SelfAddr, MaxSteps
+CONSTANTS IsMaster, SelfAddr, MaxSteps, Small
 Mon == INSTANCE Mon_C07L
 
-Headers == [dir : BOOLEAN, func : Funcs, fcv : BOOLEAN, fcb : BOOLEAN, dst : Dsts, src : {"EP", "BAD"}]
+FullHeaders == [dir : BOOLEAN, func : Funcs, fcv : BOOLEAN, fcb : BOOLEAN, dst : Dsts, src : {"EP", "BAD"}]
+\* the reduced alphabet of the 3-switch cover: well-addressed primary frames that drive the frame-count-bit automaton
+SmallHeaders == [dir : {~IsMaster}, func : {"RESET", "TEST", "CONF_DATA", "UNCONF_DATA"}, fcv : BOOLEAN, fcb : BOOLEAN,
+                 dst : {"OWN"}, src : {"EP"}]
+Headers == IF Small THEN SmallHeaders ELSE FullHeaders
 
 VARIABLES sec, m, hist
 vars == <<sec, m, hist>>
@@ -25,6 +29,7 @@ Next == /\ Len(hist) < MaxSteps
 Spec == Init /\ [][Next]_vars
 NoViolation == m.viol = <<>>
 View == <<sec, m.reset, m.lastFcb>>
-CoverView == <<sec, IF hist = <<>> THEN <<>> ELSE <<hist[Len(hist)]>>>>
+LastK(k) == SubSeq(hist, IF Len(hist) > k THEN Len(hist) - k + 1 ELSE 1, Len(hist))
+CoverView == <<sec, LastK(IF Small THEN 3 ELSE 1)>>
 ExportAll == hist = <<>> \/ PrintT(<<"SCENARIO", ToJson(hist)>>)
 =============================================================================
